@@ -23,7 +23,8 @@ RULE = (
     "query strings are generated from the grammar [op][cat/]pkg[-ver][:slot[/subslot]][::repo] with every position "
     "drawn from a token set containing exact names, '*', prefix, suffix, infix and double globs, every version "
     "operator, and '!'/'!!' blocker prefixes; each string is parsed and applied to every package of the universe "
-    "(4 categories x 4 packages x 3 versions x 3 slots x 2 sub-slots x 2 repositories). A class is (type of the "
+    "(4 categories x 4 packages x 3 versions x 3 slots x 2 sub-slots x 2 repositories); a second universe has names and "
+    "tokens with '.' and '+' in every glob position next to near-miss names only a regex reading would select. A class is (type of the "
     "restriction returned, operator present, glob in slot/sub-slot, selects none/some/all); distinct_nontrivial "
     "counts classes observed."
 )
@@ -35,8 +36,8 @@ ASSUMPTIONS = [
     "only names/versions/slots of the stated token sets are covered",
 ]
 BOUNDS = {
-    "quick": "9 category forms (incl. none) x 8 package tokens x 8 version forms x 65 slot/sub-slot forms x 3 repository forms (minus exclusions) x 576 packages; '!'/'!!' prefixes on the slot-less strings",
-    "thorough": "15 category forms x 14 package tokens x 11 version forms x 101 slot/sub-slot forms x 3 repository forms (minus exclusions) x 576 packages; '!'/'!!' prefixes on every string",
+    "quick": "9 category forms (incl. none) x 8 package tokens x 8 version forms x 65 slot/sub-slot forms x 3 repository forms (minus exclusions) x 576 packages; '!'/'!!' prefixes on the slot-less strings; plus the dot/plus universe: 11 category x 9 package tokens x 2 version forms x 33 slot/sub-slot forms x 2 repository forms x 384 packages",
+    "thorough": "15 category forms x 14 package tokens x 11 version forms x 101 slot/sub-slot forms x 3 repository forms (minus exclusions) x 576 packages; '!'/'!!' prefixes on every string; plus the same dot/plus universe as quick",
 }
 
 TOKENS_Q = ("a", "ab", "b", "*", "a*", "*b", "a*b", "*a*")
@@ -136,20 +137,48 @@ def ref_select(p, f):
 # ----------------------------------------------------------------------------------------------
 # universe of real package objects
 
-_universe = None
+# second universe: names with '.' and '+' (legal in category, slot and sub-slot names; '+' also in package names)
+# next to near-miss names that only a regular-expression reading of the token would select
+DP = {
+    "cats": ("a.b", "axb", "a+b", "ab"),
+    "pkgs": ("a+b", "ab", "axb"),
+    "vers": ("1", "2"),
+    "slots": ("1.0", "1x0", "10", "1+0"),
+    "subs": ("x.y", "xzy", "xy", "x+y"),
+    "repos": ("r1",),
+    "cat_tok": (None, "a.b", "a+b", "a.*", "a.b*", "*.b", "a+*", "a+b*", "*+b", "a*b", "*"),
+    "pkg_tok": ("a+b", "ab", "a+*", "a+b*", "*+b", "a.*", "*.b", "a*b", "*"),
+    "slot_tok": ("1.0", "1+0", "1.*", "*.0", "1.0*", "1+*", "*+0", "1*0"),
+    "sub_tok": ("x.y", "x+y", "x.*", "*.y", "x.y*", "x+*", "*+y", "x*y"),
+    "ver_forms": (None, ("=", "2")),
+    "repo_forms": (None, "r1"),
+}
 
 
-def universe():
-    global _universe
-    if _universe is None:
+def dp_slot_forms():
+    st, ss = DP["slot_tok"], DP["sub_tok"]
+    out = [(None, None)] + [(s, None) for s in st]
+    out += [(s, x) for s in ("1.0", "*", "1.*") for x in ss]
+    return out
+
+
+_universes = {}
+
+
+def universe(uni="main"):
+    if uni not in _universes:
         from pkgcore.test.misc import FakePkg, FakeRepo
 
-        repos = {r: FakeRepo(repo_id=r) for r in REPOS}
+        if uni == "main":
+            dims = (CATS, PKGS, VERS, SLOTS, SUBS, REPOS)
+        else:
+            dims = (DP["cats"], DP["pkgs"], DP["vers"], DP["slots"], DP["subs"], DP["repos"])
+        repos = {r: FakeRepo(repo_id=r) for r in dims[5]}
         out = []
-        for c, n, v, s, ss, r in itertools.product(CATS, PKGS, VERS, SLOTS, SUBS, REPOS):
+        for c, n, v, s, ss, r in itertools.product(*dims):
             out.append(((c, n, v, s, ss, r), FakePkg(f"{c}/{n}-{v}", slot=s, subslot=ss, repo=repos[r])))
-        _universe = out
-    return _universe
+        _universes[uni] = out
+    return _universes[uni]
 
 
 def mk_pkg(f):
@@ -204,6 +233,21 @@ def atom_oracle(p):
     return atom(assemble(p))
 
 
+def not_an_atom(p):
+    """A string shaped like a plain atom that atom() itself refuses is not a 'plain atom string'; the statement
+    says nothing about it, so it is skipped (counted in class 'not-an-atom')."""
+    if p.get("bang") or not is_plain_atom(p):
+        return False
+    from pkgcore.ebuild import errors
+    from pkgcore.ebuild.atom import atom
+
+    try:
+        atom(assemble(p))
+    except errors.MalformedAtom:
+        return True
+    return False
+
+
 def check_one(p, f, pkg=None, r=None):
     """One (query, package). Returns violation message or None."""
     if r is None:
@@ -243,10 +287,25 @@ def tasks(tier):
         for pi in range(len(TOKENS[tier])):
             for vi in range(len(VER_FORMS[tier])):
                 out.append((tier, ci, pi, vi))
+    for ci in range(len(DP["cat_tok"])):
+        for pi in range(len(DP["pkg_tok"])):
+            out.append((tier, "dp", ci, pi))
     return out
 
 
+def task_universe(task):
+    return "dp" if task[1] == "dp" else "main"
+
+
 def patterns_of(task):
+    if task[1] == "dp":
+        tier, _, ci, pi = task
+        for vf, (s, ss), repo in itertools.product(DP["ver_forms"], dp_slot_forms(), DP["repo_forms"]):
+            p = {"cat": DP["cat_tok"][ci], "pkg": DP["pkg_tok"][pi], "op": vf[0] if vf else None, "ver": vf[1] if vf else None, "slot": s, "sub": ss, "repo": repo}
+            if excluded(p):
+                continue
+            yield p
+        return
     tier, ci, pi, vi = task
     vf = VER_FORMS[tier][vi]
     sf = slot_forms(tier)
@@ -268,7 +327,7 @@ MAX_KNOWN_PER_CLASS = 4
 
 
 def work(task):
-    uni = universe()
+    uni = universe(task_universe(task))
     evals = 0
     classes = {}
     unknown, known = [], {}
@@ -286,9 +345,12 @@ def work(task):
 
     for p in patterns_of(task):
         text = assemble(p)
+        if not_an_atom(p):
+            classes["not-an-atom"] = classes.get("not-an-atom", 0) + 1
+            continue
         r, msg = check_parse(p)
         evals += 1
-        route = ("op" if p["op"] else "noop") + ("+slotglob" if slot_globbed(p) else "")
+        route = ("op" if p["op"] else "noop") + ("+slotglob" if slot_globbed(p) else "") + ("+dotplus" if task[1] == "dp" else "")
         if msg:
             record({"q": text, "pat": p, "pkg": None, "msg": msg})
             k = ("blocker-accepted" if p.get("bang") else "rejected") + "|" + route
